@@ -77,8 +77,9 @@ fn ai(v: &Value) -> i64 { v.as_i64().expect("int") }
 pub fn origins_from_lines(lines: &[Value], max: usize) -> Vec<Origin> {
     let mut out = vec![];
     // spread the selection over the whole file (different topologies, loop numbers, D): every k-th line first
+    // (the first max/2 lines are always taken: the driver puts the special graphs - disconnected ones - there)
     let k = (2 * lines.len() / max.max(1)).max(1);
-    let spread = lines.iter().step_by(k).chain(lines.iter());
+    let spread = lines.iter().take(max / 2).chain(lines.iter().skip(max / 2).step_by(k)).chain(lines.iter());
     for l in spread {
         let g = &l["g"];
         let wd = ai(&g["wd"]) as f64;
